@@ -109,7 +109,7 @@ pub open spec fn wt_abs(t: WakerTracker) -> WtAbs {
          proofs=[
              ("before", "flush_stream ( ) ;",
               "proof { assert(self.waiting_wakers@ =~= old(self).waiting_wakers@); /* OBL flush-before-release */ }"),
-             ("before", "if self . waiting_wakers . is_empty ( ) { while",
+             ("before", "while let Ok ( entry ) = self . flush_queue_receiver . try_recv ( )",
               """let ghost verif_c_mid = self.entries_before_wake;
                  let ghost verif_w_mid = self.waiting_wakers@.len();
                  proof {
